@@ -48,7 +48,7 @@ def specCheck (prop : String) (op res : List String) : String :=
     -- every leaf function reachable with attacker-controlled text (header values, paths): never a panic
     if ["pct_dec", "pct_enc", "grpc_extract", "connect_extract", "grpc_enc", "connect_enc", "path_unescape", "path_escape", "tmpl_parse", "env_dec", "env_enc", "grpc_dec", "parse_int64", "format_int", "route"].contains op then
       verdict (res != ["panic"]) "panic in a function that processes client- or backend-controlled text"
-    else if ["rest_in", "rest_http", "rest_out", "rest_rt", "schema_req", "schema_rest_grpc", "config", "config_err"].contains op then
+    else if ["rest_in", "rest_http", "rest_out", "rest_out_cut", "rest_rt", "schema_req", "schema_rest_grpc", "config", "config_err"].contains op then
       -- whole requests (and configurations) with hostile paths, query keys and bodies: never a panic
       let r := " ".intercalate res
       verdict ((r.splitOn "panic").length == 1 && (r.splitOn "PANIC").length == 1) "panic while serving a REST request or building a configuration"
@@ -127,6 +127,14 @@ def specCheck (prop : String) (op res : List String) : String :=
       if (a.splitOn "poolviol=").length > 1 then "fail pooled state misused: " ++ ((a.splitOn "poolviol=").getD 1 "")
       else verdict (a == b) "outcome on the used Transcoder differs from the outcome on a fresh one"
     | _ => "fail unparsable result"
+  | "C18", ["rest_out_cut", h] =>
+    let want := runRestOutCut h
+    if want == "config-rejected" || want == "bad-arg" then "nospec"
+    else verdict ((" ".intercalate res).startsWith "disp=0") "a request whose only message was cut was dispatched to the REST backend"
+  | "C09", ["rest_out_cut", h] =>
+    let want := runRestOutCut h
+    if want == "config-rejected" || want == "bad-arg" then "nospec"
+    else verdict (" ".intercalate res == "disp=0 err") "a cut request message was not reported as an error (dispatched, or answered as success)"
   | "C18", ["rest_out", h] =>
     -- a REST-only service: the handler runs once when the request line can be built from the message,
     -- and not at all when it cannot (the request is rejected before dispatch)
@@ -173,9 +181,24 @@ def specCheck (prop : String) (op res : List String) : String :=
     | ["encerr", _] => "ok"      -- the message does not fit the rule's pattern / cannot be URL-encoded
     | ["config-rejected"] => "ok"
     | _ => "fail unparsable result"
+  | "C01", [op, h] =>
+    -- a message sent to a REST-only service arrives with the same field values (path, query, body) or the
+    -- RPC fails: never another value, never a request that does not belong to the rule
+    if op == "rest_out" then
+      verdict (runRestOut h == " ".intercalate res) "a message sent to a REST-only service reached the backend altered (or was dispatched although it does not fit the rule)"
+    else if op == "rest_rt" then
+      match res with
+      | "enc" :: _ => verdict (res.getLast? == some "same=1") "a message converted to REST and back changed (or could not be parsed back)"
+      | ["encerr", _] => "ok"
+      | ["config-rejected"] => "ok"
+      | _ => "fail unparsable result"
+    else if op == "e2e" || op == "e2e_fresh" then specE2E "C01" h res
+    else "nospec"
   | "C07", [op, h] =>
     if op == "rest_out" then
       verdict (runRestOut h == " ".intercalate res) "an RPC sent to a REST-only service did not reach the backend as the request its rule prescribes, exactly once (or was dispatched although it does not fit the rule)"
+    else if op == "rest_out_cut" then
+      verdict (runRestOutCut h == " ".intercalate res) "a cut request message was dispatched to the REST backend or not reported as an error"
     else if op == "rest_in" || op == "rest_http" then
       -- an ill-typed parameter is invalid_argument, never a value: judged against the model's kinds
       verdict (runRestIn h == " ".intercalate res) "REST request parsed differently from the binding rules (google.api.http)"
